@@ -1,5 +1,6 @@
 import Driver.Common
 import DnsVerif.Model.Serve
+import DnsVerif.Spec.Answer
 
 /-! Driver for the `serve` op: compile the data file with the model codec for each storage
 configuration, answer every query with the model handler, render canonically. Address groups are
@@ -183,12 +184,106 @@ def answerOne (b : Backend) (store : Store) (q : QTok) (implResult : String) : S
         ++ s!"ns={renderSection r.ns [] []},ar={renderSection [] r.extra iar},"
         ++ renderOpt q scope (r.rcode = 5)
 
+
+/-! ### the Spec oracle: records, maps and subnets of the data file, independent of key layout -/
+
+/-- decode one v1-layout (key, value) pair emitted by the codec into an abstract record / map -/
+def decodeKV (kv : KV) : Option Spec.Rec × Option Spec.MapDecl :=
+  let (k, v) := kv
+  match k with
+  | 0 :: t :: rest =>
+    if (t = 0x4d ∨ t = 0x38) ∧ rest.length ≥ 2 then
+      -- map: packed name then '=' or '*'
+      let body := rest.take (rest.length - 1)
+      match Name.unpack body, rest.getLast? with
+      | some ls, some sfx =>
+        (none, some { ecs := t = 0x38, owner := ls, wild := sfx = 0x2a, mapID := [v.getD 0 0, v.getD 1 0] })
+      | _, _ => (none, none)
+    else
+      -- location tagged 0,x … or a control key; resource records have a 2-byte location prefix
+      match Name.unpack (k.drop 2) with
+      | some ls =>
+        match extractRR v false, extractRR v true with
+        | .row r, _ => (some { owner := ls, wild := false, loc := k.take 2, type := r.qtype, ttl := r.ttl,
+                               weight := r.weight, rdata := r.rdata }, none)
+        | _, .row r => (some { owner := ls, wild := true, loc := k.take 2, type := r.qtype, ttl := r.ttl,
+                               weight := r.weight, rdata := r.rdata }, none)
+        | _, _ => (none, none)
+      | none => (none, none)
+  | _ =>
+    match Name.unpack (k.drop 2) with
+    | some ls =>
+      match extractRR v false, extractRR v true with
+      | .row r, _ => (some { owner := ls, wild := false, loc := k.take 2, type := r.qtype, ttl := r.ttl,
+                             weight := r.weight, rdata := r.rdata }, none)
+      | _, .row r => (some { owner := ls, wild := true, loc := k.take 2, type := r.qtype, ttl := r.ttl,
+                             weight := r.weight, rdata := r.rdata }, none)
+      | _, _ => (none, none)
+    | none => (none, none)
+
+/-- the declared content of a data file (through the v1 / CDB codec configuration) -/
+def zoneOf (lines : List Bytes) : Option Spec.Zone :=
+  let cfg : Cfg := { serial := serial, noRnetOutput := true }
+  let r := lines.foldlM (fun (acc : List KV × List Subnet) raw =>
+    match filterLine raw with
+    | none => some acc
+    | some l =>
+      match convertLine cfg (fun _ => none) l with
+      | .error _ => none
+      | .ok lo => some (acc.1 ++ lo.kvs, acc.2 ++ lo.subnet.toList)) ([], [])
+  r.map fun (kvs, subs) =>
+    let dec := kvs.map decodeKV
+    { recs := dec.filterMap (·.1), maps := dec.filterMap (·.2),
+      subnets := subs.map fun s => { mapID := s.lmap, net := ipToNat s.ip, ones := s.ones, loc := s.lo.getD [0, 0] } }
+
+def renderSpecRR (r : Spec.OutRR) : String :=
+  s!"{Bytes.hex (Name.pack r.owner)}/{r.type}/{r.cls}/{r.ttl}/{Bytes.hex r.rdata}"
+
+def specGroupToModel (g : Spec.OutAddrs) : AddrGroup :=
+  { name := Name.pack g.owner, type := g.type, cls := g.cls,
+    cands := g.cands.map fun (ttl, w, a) => ⟨ttl, w, a⟩, max := g.max }
+
+/-- what the Spec says the reply to `q` must be, rendered like an implementation result (address
+groups echo the implementation's choice when it is admissible) -/
+def specOne (z : Spec.Zone) (q : QTok) (implResult : String) : String :=
+  let qnameOut := packText q.nameText
+  let qname := Name.toLower qnameOut
+  match Name.unpack qname with
+  | none => "spec-badname"
+  | some labels =>
+    if q.opt ∧ q.version ≠ 0 then s!"rc=16"
+    else
+      let client : Spec.Client :=
+        { resolver := ipToNat q.resolver,
+          ecs := q.ecs.map fun e => (e.family, e.sourceMask, e.scope, ipToNat (to16 e.addr)) }
+      let lr := Spec.locate z labels client
+      let a := Spec.answer z labels q.qtype q.qclass (if q.maxAns = 0 then 1 else q.maxAns) lr.loc
+      let (ian, _, iar) := implSections implResult
+      let sec (rrs : List Spec.OutRR) (gs : List Spec.OutAddrs) (impl : List String) : String :=
+        "[" ++ "|".intercalate (sortStrs (rrs.map renderSpecRR ++ gs.flatMap fun g => renderGroup (specGroupToModel g) impl)) ++ "]"
+      let aa := if a.aa then 1 else 0
+      let opt :=
+        if ¬ q.opt then "none"
+        else match q.ecs, lr.scope with
+          | some e, some sc => s!"opt(e{e.family}/{e.sourceMask}/{sc}/{Bytes.hex e.addr})"
+          | _, _ => "opt()"
+      s!"rc={a.rcode},aa={aa},id=ok,q=same,an={sec a.answer a.answerAddrs ian},ns={sec a.authority [] []},"
+        ++ s!"ar={sec [] a.additional iar},{opt}"
+
 def noSvcb : SvcbFn := fun _ => none
 
 def handle (st : St) (op : String) (args : List String) (impl : Option String) :
     Option (St × Out) :=
   match op, args with
-  | "serve", [ls, qs] =>
+  | "serve", [ls, qs] | "servecs", [ls, qs] =>
+    -- `serve`: the Spec oracle judges rcode, flags and sections (C01/C02/C04); `servecs`: also the
+    -- OPT/ECS field (C10)
+    let withOpt := op = "servecs"
+    let dropOpt (r : String) : String :=
+      if withOpt then r else
+      match r.splitOn ",ar=" with
+      | [a, b] => a ++ ",ar=" ++ ((b.splitOn "]").headD "") ++ "]"
+      | _ => r
     let lines := (ls.splitOn ";").filterMap Bytes.ofHex
     let queries := (qs.splitOn ";").filterMap parseQ
     let implParts := (impl.getD "").splitOn "#"
@@ -201,7 +296,27 @@ def handle (st : St) (op : String) (args : List String) (impl : Option String) :
       | none => name ++ ":compile-error"
       | some store =>
         name ++ ":" ++ "~".intercalate (queries.zipIdx.map fun (q, i) => answerOne b store q (implB.getD i ""))
-    some (st, { model := "#".intercalate outs })
+    -- Spec oracle on the implementation's own output: first query/backend where they differ.
+    -- Extra EDNS options in the reply (cookie, NSID echo) are outside the statement and ignored.
+    let stripExtra (r : String) : String := r.replace "c10," "" |>.replace "c3," "" |>.replace "(c10)" "()" |>.replace "(c3)" "()"
+    let verdict : String :=
+      match impl, zoneOf lines with
+      | none, _ => "-"
+      | some _, none => "-"
+      | some _, some z =>
+        let bad := backends.findSome? fun (name, _) =>
+          match implParts.find? (·.startsWith (name ++ ":")) with
+          | none => none
+          | some p =>
+            let rs := ((p.drop (name.length + 1)).toString).splitOn "~"
+            if rs = ["compile-error"] then none
+            else (queries.zipIdx.zip rs).findSome? fun ((q, i), r) =>
+              let want := specOne z q r
+              if want = "rc=16" then (if r.startsWith "rc=16," then none else some s!"FAIL:{name}-q{i}-badvers")
+              else if dropOpt (stripExtra r) = dropOpt want then none
+              else some s!"FAIL:{name}-q{i}:want={want}"
+        bad.getD "ok"
+    some (st, { model := "#".intercalate outs, spec := verdict })
   | _, _ => none
 
 end Driver.Serve
